@@ -569,6 +569,7 @@ func c04UfsValidity(dotu bool, depth int) Scenario {
 			{"walk 0->1 d", func() *wire.Msg { return twalk(0, 0, 1, "d") }, 1, -1},
 			{"walk 0->2 f", func() *wire.Msg { return twalk(0, 0, 2, "f") }, 2, -1},
 			{"walk 0->3 d", func() *wire.Msg { return twalk(0, 0, 3, "d") }, 3, -1},
+			{"walk 0->2 ln (a symbolic link)", func() *wire.Msg { return twalk(0, 0, 2, "ln") }, 2, -1},
 			{"clunk 1", func() *wire.Msg { return &wire.Msg{Type: wire.Tclunk, Fid: 1} }, -1, 1},
 			{"clunk 2", func() *wire.Msg { return &wire.Msg{Type: wire.Tclunk, Fid: 2} }, -1, 2},
 			{"clunk 3", func() *wire.Msg { return &wire.Msg{Type: wire.Tclunk, Fid: 3} }, -1, 3},
@@ -597,6 +598,7 @@ func c04UfsValidity(dotu bool, depth int) Scenario {
 			os.RemoveAll(root)
 			os.MkdirAll(filepath.Join(root, "d"), 0o755)
 			os.WriteFile(filepath.Join(root, "f"), []byte("x"), 0o644)
+			os.Symlink("f", filepath.Join(root, "ln"))
 			var bad string
 			var hist []string
 			body := func() {
